@@ -1,4 +1,5 @@
 import RgVerif.Lemmas.SearcherTopFast
+import RgVerif.Spec.LineSafe
 /-
 `find_by_line_fast` meets its contract (`FindSpec`) for every matcher that is *line safe* on the buffer:
 what its candidate finder answers at a line start points into the first matching line (confirmed),
@@ -71,6 +72,16 @@ theorem firstFrom_skip {f : Nat → Bool} : ∀ {d p q : Nat}, p ≤ q → q ≤
       rw [ih (show p + 1 ≤ q by omega) (by omega) (fun j a b => h3 j (by omega) b)]
       congr 1; omega
 
+theorem take_add_app {α : Type} (A B : List α) (a : Nat) : (A ++ B).take (A.length + a) = A ++ B.take a := by
+  induction A with
+  | nil => simp
+  | cons x A ih => simp [Nat.succ_add, ih]
+
+theorem drop_add_app {α : Type} (A B : List α) (a : Nat) : (A ++ B).drop (A.length + a) = B.drop a := by
+  induction A with
+  | nil => simp
+  | cons x A ih => simp [Nat.succ_add, ih]
+
 theorem allTerm_flatten_snoc {t : Nat} {ls : List Bytes} (h : AllTerm t ls) (hne : ls ≠ []) :
     ∃ A, ls.flatten = A ++ [t] := by
   rcases snoc_cases ls with rfl | ⟨init, l, rfl⟩
@@ -106,9 +117,10 @@ theorem Layout.split_at (L : Layout t buf sl) (hlen : buf.length = offsetAt sl s
       have hat := L.good.allTerm_take j hjl
       exact allTerm_flatten_snoc hat (by
         intro he
-        have := congrArg List.length he
-        rw [List.length_take, lsOf_length] at this
-        simp at this; omega)
+        have h1 : (List.take j (lsOf sl)).length = 0 := by rw [he]; rfl
+        rw [List.length_take] at h1
+        have hl := lsOf_length sl
+        omega)
   · have hg := (L.good.drop j)
     rw [List.drop_eq_getElem_cons hjl] at hg
     have hb : (lsOf sl)[j] = bytesAt sl j := by simp [bytesAt, lsOf, hj]
@@ -137,15 +149,17 @@ theorem locate_inLine (L : Layout t buf sl) (hlen : buf.length = offsetAt sl sl.
   have hale : a ≤ Lj.length := by omega
   -- the part of the buffer before `x`
   have htake : buf.take x = A ++ Lj.take a := by
-    rw [hbuf, hxa, List.append_assoc, List.take_append]; simp
-  have hstart : (match rfindByte t (buf.take x) with | none => 0 | some i => i + 1) = offsetAt sl j := by
+    rw [hbuf, hxa, List.append_assoc, take_add_app, List.take_append_of_le_length hale]
+  have hstart : (rfindByte t (buf.take x) = none ∧ offsetAt sl j = 0) ∨
+      (∃ i, rfindByte t (buf.take x) = some i ∧ i + 1 = offsetAt sl j) := by
     rw [htake]
     rcases hAt with rfl | ⟨A', rfl⟩
-    · simp only [List.nil_append, rfindByte_none hnt]
-      simpa using hA
-    · have : A' ++ [t] ++ List.take a Lj = A' ++ t :: List.take a Lj := by simp
+    · left
+      exact ⟨by rw [List.nil_append, rfindByte_none hnt], by simpa using hA.symm⟩
+    · right
+      have : A' ++ [t] ++ List.take a Lj = A' ++ t :: List.take a Lj := by simp
       rw [this, rfindByte_term A' hnt]
-      simp at hA; omega
+      exact ⟨_, rfl, by simp at hA; omega⟩
   -- the byte before `x` is not a terminator
   have hprev : (decide (x > offsetAt sl j) && (buf[x - 1]? == some t)) = false := by
     by_cases ha0 : a = 0
@@ -165,12 +179,13 @@ theorem locate_inLine (L : Layout t buf sl) (hlen : buf.length = offsetAt sl sl.
       simp [hne]
   -- the rest of line `j` from `x`
   have hdrop : buf.drop x = Lj.drop a ++ C := by
-    rw [hbuf, hxa, List.append_assoc, List.drop_append]; simp
-  have hend : (match findByte t (buf.drop x) with | none => buf.length | some i => x + i + 1)
-      = offsetAt sl (j + 1) := by
+    rw [hbuf, hxa, List.append_assoc, drop_add_app, List.drop_append_of_le_length hale]
+  have hend : (findByte t (buf.drop x) = none ∧ buf.length = offsetAt sl (j + 1)) ∨
+      (∃ i, findByte t (buf.drop x) = some i ∧ x + i + 1 = offsetAt sl (j + 1)) := by
     rw [hdrop]
     rcases hterm with ⟨body, rfl, hnb⟩ | ⟨hu, rfl⟩
-    · have hab : a ≤ body.length := by
+    · right
+      have hab : a ≤ body.length := by
         apply Classical.byContradiction; intro hc
         have hlen2 : (body ++ [t]).length = body.length + 1 := by simp
         have ha' : a = body.length + 1 := by omega
@@ -179,9 +194,10 @@ theorem locate_inLine (L : Layout t buf sl) (hlen : buf.length = offsetAt sl sl.
       have : List.drop a (body ++ [t]) ++ C = body.drop a ++ t :: C := by
         rw [List.drop_append_of_le_length hab]; simp
       rw [this, findByte_term C (fun hm => hnb (List.mem_of_mem_drop hm))]
+      refine ⟨_, rfl, ?_⟩
       simp at hsucc ⊢; omega
-    · have hn : t ∉ Lj.drop a := fun hm => hu.2 (List.mem_of_mem_drop hm)
-      simp only [List.append_nil, findByte_none hn]
+    · left
+      have hn : t ∉ Lj.drop a := fun hm => hu.2 (List.mem_of_mem_drop hm)
       have : j + 1 = sl.length := by
         apply Classical.byContradiction; intro hc
         have := L.term_of_lt j (by omega)
@@ -189,8 +205,179 @@ theorem locate_inLine (L : Layout t buf sl) (hlen : buf.length = offsetAt sl sl.
         obtain ⟨b, rfl, _⟩ := this
         exact hu.2 (by simp)
       rw [this, hlen]
+      exact ⟨by rw [List.append_nil, findByte_none hn], rfl⟩
+  have hprev' : ∀ s0, s0 = offsetAt sl j → (decide (x > s0) && (buf[x - 1]? == some t)) = false := by
+    intro s0 h0; rw [h0]; exact hprev
   unfold locate
-  simp only [hstart, hprev, Bool.false_eq_true, if_false, hend, span]
+  rcases hstart with ⟨h1, h1'⟩ | ⟨i1, h1, h1'⟩ <;> rcases hend with ⟨h2, h2'⟩ | ⟨i2, h2, h2'⟩
+  · simp only [h1, h2, span]
+    rw [hprev' 0 h1'.symm, ← h1', ← h2']; rfl
+  · simp only [h1, h2, span]
+    rw [hprev' 0 h1'.symm, ← h1', ← h2']; rfl
+  · simp only [h1, h2, span]
+    rw [hprev' (i1 + 1) h1', ← h1', ← h2']; rfl
+  · simp only [h1, h2, span]
+    rw [hprev' (i1 + 1) h1', ← h1', ← h2']; rfl
+
+
+/-- `locate` of the empty range at the end of a buffer whose last line is terminated is the empty line there. -/
+theorem locate_end (L : Layout t buf sl) (hlen : buf.length = offsetAt sl sl.length) (hn : 0 < sl.length)
+    (hterm : Term t (bytesAt sl (sl.length - 1))) : locate buf t ⟨buf.length, buf.length⟩ = ⟨buf.length, buf.length⟩ := by
+  obtain ⟨A, C, hbuf, hA, _, _⟩ := Searcher.Layout.split_at L hlen (sl.length - 1) (by omega)
+  obtain ⟨body, hb, _⟩ := hterm
+  have hsucc := off_succ sl (sl.length - 1) (by omega)
+  have e : sl.length - 1 + 1 = sl.length := by omega
+  rw [e] at hsucc
+  have hC : C = [] := by
+    have h1 := congrArg List.length hbuf
+    simp only [List.length_append] at h1
+    exact List.length_eq_zero_iff.mp (by omega)
+  subst hC
+  have hbuf' : buf = (A ++ body) ++ [t] := by rw [hbuf, hb]; simp
+  have hr : rfindByte t (buf.take buf.length) = some (A ++ body).length := by
+    rw [List.take_length]
+    conv => lhs; rw [hbuf']
+    exact rfindByte_term (A ++ body) (by simp)
+  have hl : buf.length = (A ++ body).length + 1 := by
+    conv => lhs; rw [hbuf']
+    simp [Nat.add_assoc]
+  unfold locate
+  simp only [hr, List.drop_length, findByte]
+  rw [← hl]
+  simp
+
+variable {cfg : Config} {m : MatcherI}
+
+theorem pmAt_eq_pmLine (hsel : ∀ j, j < sl.length → selAt sl j = lineSel cfg m (bytesAt sl j)) (j : Nat)
+    (hj : j < sl.length) : pmAt cfg sl j = pmLine cfg m sl j := by
+  unfold pmAt pmLine
+  rw [hsel j hj]
+  unfold lineSel MatcherI.isMatch MatcherI.shortestMatch
+  cases (m.shortestAt (withoutTerminator (bytesAt sl j) cfg.lineTerm) 0).isSome <;> cases cfg.invertMatch <;> rfl
+
+theorem findLoop_spec (L : Layout t buf sl) (hlen : buf.length = offsetAt sl sl.length)
+    (ht : cfg.lineTerm.asByte = t)
+    (hsel : ∀ j, j < sl.length → selAt sl j = lineSel cfg m (bytesAt sl j)) (hs : LineSafe cfg m buf sl) :
+    ∀ (fuel p : Nat), p ≤ sl.length → sl.length - p < fuel →
+      findByLineFastLoop cfg m buf fuel (offsetAt sl p)
+        = (firstFrom (pmAt cfg sl) p (sl.length - p)).map (span sl) := by
+  have hpm : ∀ j, j < sl.length → pmAt cfg sl j = pmLine cfg m sl j := pmAt_eq_pmLine hsel
+  intro fuel
+  induction fuel with
+  | zero => intro p _ h; omega
+  | succ fuel ih =>
+    intro p hp hfuel
+    rw [findByLineFastLoop, drop_isEmpty_iff L hlen hp]
+    by_cases hpn : p = sl.length
+    · subst hpn; simp [firstFrom]
+    · have hplt : p < sl.length := by omega
+      simp only [hpn, decide_false, Bool.false_eq_true, if_false]
+      cases hc : m.findCandidateLine (buf.drop (offsetAt sl p)) with
+      | none =>
+        have := hs.none_ok p hplt hc
+        rw [firstFrom_eq_none (fun j h1 h2 => by rw [hpm j (by omega)]; exact this j h1 (by omega))]
+        rfl
+      | some kind =>
+        cases kind with
+        | confirmed i =>
+          rcases hs.confirmed_ok p i hplt hc with ⟨j, hpj, hin, hpmj, hbefore⟩ | ⟨hend, hterm, hall⟩
+          · have hj := hin.1
+            have hloc := locate_inLine L hlen (ht ▸ hin)
+            simp only [ht, hloc]
+            have hne : ¬ ((span sl j).s == buf.length) = true := by
+              have := L.off_lt (show j < sl.length from hj) (Nat.le_refl _)
+              simp [span, hlen]; omega
+            simp only [hne]
+            rw [firstFrom_eq_some hpj (by omega) (by rw [hpm j hj]; exact hpmj)
+              (fun j' h1 h2 => by rw [hpm j' (by omega)]; exact hbefore j' h1 h2)]
+            rfl
+          · have hloc := locate_end L hlen (by omega) (ht ▸ hterm)
+            simp only [ht, hend, hloc, beq_self_eq_true, if_true]
+            rw [firstFrom_eq_none (fun j h1 h2 => by rw [hpm j (by omega)]; exact hall j h1 (by omega))]
+            cases fuel with
+            | zero => rfl
+            | succ f => rw [findByLineFastLoop]; simp
+        | candidate i =>
+          obtain ⟨j, hpj, hin, hbefore⟩ := hs.candidate_ok p i hplt hc
+          have hj := hin.1
+          have hloc := locate_inLine L hlen (ht ▸ hin)
+          simp only [ht, hloc]
+          have hsl : slice buf (span sl j).s (span sl j).e = bytesAt sl j := L.slice_line j hj
+          rw [hsl]
+          have hpmj : m.isMatch (withoutTerminator (bytesAt sl j) cfg.lineTerm) = pmLine cfg m sl j := rfl
+          rw [hpmj]
+          cases hv : pmLine cfg m sl j
+          · simp only [Bool.false_eq_true, if_false]
+            have he : (span sl j).e = offsetAt sl (j + 1) := rfl
+            rw [he, ih (j + 1) (by omega) (by omega)]
+            rw [firstFrom_skip (p := p) (q := j + 1) (d := sl.length - p) (by omega) (by omega)
+              (fun j' h1 h2 => by
+                rw [hpm j' (by omega)]
+                by_cases hjj : j' = j
+                · subst hjj; exact hv
+                · exact hbefore j' h1 (by omega))]
+            congr 2; omega
+          · simp only [if_true]
+            rw [firstFrom_eq_some hpj (by omega) (by rw [hpm j hj]; exact hv)
+              (fun j' h1 h2 => by rw [hpm j' (by omega)]; exact hbefore j' h1 h2)]
+            rfl
+
+/-- **A line-safe matcher makes `find_by_line_fast` meet its contract.** -/
+theorem findSpec_of_lineSafe (L : Layout t buf sl) (hlen : buf.length = offsetAt sl sl.length)
+    (ht : cfg.lineTerm.asByte = t)
+    (hsel : ∀ j, j < sl.length → selAt sl j = lineSel cfg m (bytesAt sl j)) (hs : LineSafe cfg m buf sl) :
+    FindSpec cfg m buf sl := by
+  intro st p hp hpos
+  unfold findByLineFast
+  rw [hpos]
+  apply findLoop_spec L hlen ht hsel hs _ p hp
+  have hn : sl.length ≤ buf.length := by
+    rw [hlen, ← off_flat, ← lsOf_length sl, List.take_length]
+    exact L.good.length_le
+  omega
+
+
+theorem noneMatchB_spec {p q : Nat} (h : noneMatchB cfg m sl p q = true) :
+    ∀ j, p ≤ j → j < q → pmLine cfg m sl j = false := by
+  intro j h1 h2
+  have := (List.all_eq_true.mp h) j (List.mem_range.mpr h2)
+  have hn : ¬ j < p := by omega
+  simpa [hn, pmLineB, pmLine] using this
+
+theorem inLineB_spec {t' j x : Nat} (h : inLineB t' sl j x = true) : InLine t' sl j x := by
+  simp only [inLineB, Bool.and_eq_true, decide_eq_true_eq, Bool.not_eq_true', List.contains_eq_mem,
+    decide_eq_false_iff_not] at h
+  exact ⟨h.1.1.1, h.1.1.2, h.1.2, h.2⟩
+
+theorem lastTermB_spec {t' : Nat} (h : lastTermB t' sl = true) : Term t' (bytesAt sl (sl.length - 1)) := by
+  simp only [lastTermB, Bool.and_eq_true, beq_iff_eq, Bool.not_eq_true', List.contains_eq_mem,
+    decide_eq_false_iff_not] at h
+  refine ⟨(bytesAt sl (sl.length - 1)).dropLast, ?_, h.2⟩
+  rcases snoc_cases (bytesAt sl (sl.length - 1)) with he | ⟨i, x, he⟩
+  · rw [he] at h; simp at h
+  · rw [he] at h ⊢
+    simp at h
+    simp [h.1]
+
+/-- the executable certificate check is sound -/
+theorem lineSafeCheck_sound (h : lineSafeCheck cfg m buf sl = true) : LineSafe cfg m buf sl := by
+  have hp : ∀ p, p < sl.length → _ := fun p hp => (List.all_eq_true.mp h) p (List.mem_range.mpr hp)
+  constructor
+  · intro p hlt hc
+    have := hp p hlt
+    simp only [hc] at this
+    exact noneMatchB_spec this
+  · intro p i hlt hc
+    have := hp p hlt
+    simp only [hc, Bool.or_eq_true, List.any_eq_true, Bool.and_eq_true, decide_eq_true_eq, beq_iff_eq] at this
+    rcases this with ⟨j, _, ⟨⟨h1, h2⟩, h3⟩, h4⟩ | ⟨⟨h1, h2⟩, h3⟩
+    · exact Or.inl ⟨j, h1, inLineB_spec h2, by simpa [pmLineB, pmLine] using h3, noneMatchB_spec h4⟩
+    · exact Or.inr ⟨h1, lastTermB_spec h2, noneMatchB_spec h3⟩
+  · intro p i hlt hc
+    have := hp p hlt
+    simp only [hc, List.any_eq_true, Bool.and_eq_true, decide_eq_true_eq] at this
+    obtain ⟨j, _, ⟨h1, h2⟩, h3⟩ := this
+    exact ⟨j, h1, inLineB_spec h2, noneMatchB_spec h3⟩
 
 end
 end RgVerif.Searcher
